@@ -4,6 +4,7 @@ CONSTANTS
   MaxTypes = 1000
   MaxFuncs = 1000
   MaxEdits = 1000
+  EditOps = {"build", "findadd", "nametype", "delete", "root", "gc"}
 CONSTRAINT Record
 POSTCONDITION Post
 CHECK_DEADLOCK FALSE
